@@ -313,6 +313,8 @@ def to_lines(sess, name, late_acks=False):
         else:
             lines.append("new %s %d %d rc4 %s %d" % (ch, start, fs, keys[sub].hex(), total))
         expect.append(("ok", None))
+        if cfg.compression:
+            lines.append("zon %s" % ch); expect.append(("ok", None))
         msgs = list(sent_lists.get((d, sub), []))
         skip = 0
         pend = []
@@ -338,6 +340,11 @@ def to_lines(sess, name, late_acks=False):
                         lines.append("send %s -" % ch); expect.append(("wires", "UNEXPECTED real data wire " + wire)); continue
                     m = msgs.pop(0)
                     k = (len(m) + fs - 1) // fs
+                    if cfg.compression:
+                        # the deflate oracle, fragment by fragment; the model answers `ok` only if its own inflater turns it back
+                        import zlib as _z
+                        for i0 in range(0, len(m), fs):
+                            lines.append("z %s %s %s" % (ch, m[i0:i0 + fs].hex(), _z.compress(m[i0:i0 + fs]).hex())); expect.append(("eq", "ok"))
                     if any(x[3] != "data" for x in emits[epos:epos + k - 1]):
                         # something else was numbered before the message's last fragment
                         lines.append("begin %s %s" % (ch, m.hex())); expect.append(("eq", "pending=%d" % k))
@@ -506,7 +513,7 @@ def work(args):
         big = len(sess.netlog) > 20000
         if isinstance(seed, str) and (seed.startswith("slow-reader") or seed.startswith("largest-message")):
             rechunk = True          # judged on the real code only
-        lines, expect = to_lines(sess, "s%d" % idx) if not sess.crash and not big and not sess.cfg.compression and not rechunk else ([], [])
+        lines, expect = to_lines(sess, "s%d" % idx) if not sess.crash and not big and not rechunk else ([], [])
         stats = {"tx": sum(1 for e in sess.netlog if e[0] == "tx"), "regime": regime if not isinstance(seed, str) else "directed:" + seed,
                  "enc": "lite" if cfg.transport == "lite" else "v%d" % cfg.version, "msgs": len(sess.accepted),
                  "connect_error": bool(sess.connect_error), "timed_out": sess.timed_out}
@@ -562,6 +569,9 @@ def run(ctx):
                     first_diff = {"line": line[:300], "model": out[:600], "real": (exp or "")[:600], "cfg": cfgd, "case_seed": seed, "case_index": idx}
         ndiff += sess_diff
         ctx.traces_validated += 1 if lines else 0
+        if any(l.startswith("zon ") for l in lines):
+            ctx.extra["zlib_sessions_replayed"] = ctx.extra.get("zlib_sessions_replayed", 0) + 1
+            ctx.extra["deflate_oracle_entries_validated"] = ctx.extra.get("deflate_oracle_entries_validated", 0) + sum(1 for l in lines if l.startswith("z "))
         nontriv = stats.get("msgs", 0) > 0 and stats.get("tx", 0) > 6
         sl = stats.get("slowlink")
         if sl:
